@@ -3,6 +3,7 @@
 # usage: transcripts.sh <summary.json>      exit 0 = identical, 1 = VIOLATION printed, 2 = harness error
 set -u
 here="$(cd "$(dirname "$0")/.." && pwd)"
+export VERIF_DIR="$here"
 . "$here/scripts/env.sh"
 summary="$1"
 work="$(mktemp -d /tmp/verif-tr.XXXXXX)"
@@ -11,7 +12,7 @@ names=(default decimal_pure_go math_big_pure_go both_pure)
 tags=("verif" "verif decimal_pure_go" "verif math_big_pure_go" "verif decimal_pure_go math_big_pure_go")
 pids=()
 for i in 0 1 2 3; do
-  ( cd "$here/mc" && go build -tags "${tags[$i]}" -o "$work/bin.$i" . ) 2> "$work/err.$i" &
+  ( cd "$here/mc" && go build $(modflag "$work") -tags "${tags[$i]}" -o "$work/bin.$i" . ) 2> "$work/err.$i" &
   pids+=($!)
 done
 for i in 0 1 2 3; do
